@@ -166,6 +166,12 @@ def gen_case(rng, root, i):
         sources = [pick_glob() for _ in range(rng.choice([1, 1, 2, 3]))]
     else:
         sources = [pick_src() for _ in range(rng.choice([0, 1, 1, 2, 3, 4]))]
+    if fn in ("Dir", "DirNewer") and rng.random() < 0.35:
+        files = [p for p in paths if "/" in p]
+        if files:
+            f = rng.choice(files)
+            parent = f.rsplit("/", 1)[0]
+            sources = rng.choice([[f, parent], [parent, f], [f, parent, f], [f, "./" + parent]])
     if fn in ("NewestModTime", "OldestModTime"):
         sources = [s for s in sources if "$" not in s] or [rng.choice(paths)]
     r = rng.random()
@@ -195,6 +201,11 @@ def run(ctx):
             c["tree"] = ti
             c["root"] = d
             reqs.append(c)
+            if any("$" in s for s in c["sources"]) and c["fn"] not in ("Glob", "GlobNewer") and rng.random() < 0.6:
+                # the same caller slice again after the environment changed: the answer is about the NEW expansion
+                paths = all_paths(root) or ["a"]
+                c2 = dict(c, env=dict(c["env"], V=rng.choice(paths), W=rng.choice(["b", "x.go", ""])), reuse=True)
+                reqs.append(c2)
     if ctx.replay and ctx.replay.get("case"):
         c = ctx.replay["case"]
         root = c["tree_node"]
@@ -207,7 +218,7 @@ def run(ctx):
         trees.append(root)
         c = dict(c, tree=len(trees) - 1, root=d)
         reqs.insert(0, c)
-    inp = "\n".join(json.dumps({"op": "target", "raw": {k: c[k] for k in ("root", "env", "fn", "dst", "sources", "target")}}) for c in reqs) + "\n"
+    inp = "\n".join(json.dumps({"op": "target", "raw": dict({k: c[k] for k in ("root", "env", "fn", "dst", "sources", "target")}, reuse=bool(c.get("reuse")))}) for c in reqs) + "\n"
     rc, out, err = sh([binp], input=inp.encode(), timeout=900)
     if rc != 0:
         raise BuildError("unitrun failed: " + err[-2000:])
